@@ -8,6 +8,7 @@ import Mathlib.Algebra.BigOperators.Ring.List
 import Mathlib.Tactic.FieldSimp
 import Mathlib.Tactic.Ring
 import Mathlib.Tactic.Linarith
+import PhotVerif.Gen.ForwardTable
 
 namespace PhotVerif.C17
 open PhotVerif.Model PhotVerif.Model.Centroid PhotVerif.Gen.CentroidTable
@@ -149,5 +150,11 @@ theorem both_origins_added : originAdditions = 2 := by decide
 
 /-- `py2intround` rounds half away from zero -/
 example : py2intround (5/2) = 3 ∧ py2intround (-5/2) = -3 ∧ py2intround (7/4) = 2 := by decide +kernel
+
+/-! ### no delegating call in this property's modules drops an argument it holds (table regenerated from the source) -/
+
+/-- TABLE OBLIGATION: see `Gen/ForwardTable.lean` - every delegating call in these modules passes on each value the caller holds
+    under the callee's own parameter name (seed C14-r6 dropped `footprint` from the centroid refinement of `find_peaks`) -/
+theorem no_dropped_arguments : Gen.ForwardTable.droppedIn Gen.ForwardTable.scopeC17 = [] := by decide
 
 end PhotVerif.C17
